@@ -1,5 +1,5 @@
 (* C15: badness never increases in a g-step without smoothing (epsilon None or <= 0):
-   chi2_mat regrouped by columns, each column being minimised by gstep_col. *)
+   chi2_mat regrouped by columns, each column being minimised by gstep_col_ref. *)
 From Coq Require Import QArith Qabs Lqa List Bool Lia ZArith.
 From PV Require Import Lib.WLS C13.LinAlg C13.LinAlgProofs C15.Model C15.Chi2Proofs C15.HmfProofs C15.HmfProofs2.
 Import ListNotations.
@@ -75,7 +75,7 @@ Qed.
 
 (* badness_nonincreasing (g-step, no smoothing) *)
 Theorem badness_nonincreasing_gstep s w a g eps gnew :
-  gstep s w a g eps = Some gnew -> eps_active eps = None ->
+  gstep_ref s w a g eps = Some gnew -> eps_active eps = None ->
   (0 < length s)%nat -> (0 < ncols s)%nat ->
   Forall (fun r => length r = ncols s) s -> Forall (fun r => length r = ncols s) w ->
   length w = length s -> length a = length s -> rows_len (ncols a) a ->
@@ -109,7 +109,7 @@ Proof.
 Qed.
 
 Corollary badness_nonincreasing_gstep_None s w a g gnew :
-  gstep s w a g None = Some gnew ->
+  gstep_ref s w a g None = Some gnew ->
   (0 < length s)%nat -> (0 < ncols s)%nat ->
   Forall (fun r => length r = ncols s) s -> Forall (fun r => length r = ncols s) w ->
   length w = length s -> length a = length s -> rows_len (ncols a) a ->
